@@ -37,7 +37,7 @@ TimingEnvs ==
         so \in {[n \in UNI |-> TRUE], [n \in UNI |-> n % 3 # 0]}}
 MCEnvs == IF FAMILY = "coop" THEN CoopEnvs ELSE TimingEnvs
 
-VARIABLES env, now, cands, active, timedout, requested, toks, endgame, egAt, yielded, announced, done, doneAt, inflight, nextTid, log
+VARIABLES env, now, lk, meta, tokv, egAt, yielded, announced, done, doneAt, inflight, nextTid, log
 INSTANCE Lookup WITH Dist <- MCDist, ENVS <- MCEnvs
 
 Safety == YieldJustified /\ AnnounceOK /\ NoEarlyClose /\ ClosedBy /\ SilentCloseAt3s /\ ImmediateWhenNothingToAsk
